@@ -183,3 +183,17 @@ theorem before_of_face (f g : Int) (τ σ : List Nat) (hd : DecBelow none σ) (h
 #print axioms before_trans
 #print axioms before_of_face
 end OrderProto
+
+namespace OrderProto
+/-- **any correct sort gives the same filtration order**: two permutations of one list of (value, simplex) pairs that
+    are both sorted by `before` are equal — whatever sort routine, thread count or schedule produced them -/
+theorem order_unique (l₁ l₂ : List (Int × List Nat)) (hp : l₁.Perm l₂)
+    (h₁ : l₁.Pairwise fun a b => before a b = true) (h₂ : l₂.Pairwise fun a b => before a b = true) : l₁ = l₂ := by
+  apply List.Perm.eq_of_pairwise _ h₁ h₂ hp
+  intro a b _ _ hab hba
+  have := before_trans a b a hab hba
+  rw [before_irrefl] at this
+  cases this
+
+#print axioms order_unique
+end OrderProto
